@@ -1,0 +1,9 @@
+//go:build !verif
+
+package bcl
+
+// Verification hooks are compiled out without the 'verif' build tag.
+
+func verifPoint(id int) {}
+
+func verifVMStep(vm *vm) {}
